@@ -120,12 +120,17 @@ def jsonable(x):
 def evaluate(mod, specs, stats, collect_samples=3):
     """run impl + model on specs -> (mismatches, oracle_violations, samples)"""
     cases = []
-    bad_specs = []
+    adapter_failures = []
     for s in specs:
         try:
             c = mod.make(s)
-        except Exception as e:  # generator / adapter bug: infrastructure error, not a violation
-            bad_specs.append((s, traceback.format_exc()))
+        except Exception:
+            # On the unchanged tree every spec builds (checked by the clean runs); an adapter that fails now fails
+            # because the code under test behaves differently while the case is being set up (constructors raising /
+            # returning unusable values).  That is a broken correspondence, reported with the spec as the replay.
+            adapter_failures.append({"spec": s, "mode": "-", "line": None, "impl": None, "model": None,
+                                     "message": "building the case raised: " + traceback.format_exc()[-600:],
+                                     "klass": s.get("op", "?")})
             continue
         if c is None:
             continue
@@ -133,8 +138,6 @@ def evaluate(mod, specs, stats, collect_samples=3):
             cases.extend(x for x in c if x is not None)
         else:
             cases.append(c)
-    if bad_specs:
-        raise RuntimeError("make(spec) failed for %d specs, first: %s\n%s" % (len(bad_specs), bad_specs[0][0], bad_specs[0][1]))
     impl_res = []
     for c in cases:
         if c.model_only:
@@ -148,7 +151,7 @@ def evaluate(mod, specs, stats, collect_samples=3):
         outs = proto.run_driver_sharded(mode, [cases[i].line for i in idx])
         for i, o in zip(idx, outs):
             answers[(i, mode)] = o
-    mismatches = []
+    mismatches = list(adapter_failures)
     violations = []
     samples = []
     for i, c in enumerate(cases):
@@ -178,7 +181,12 @@ def evaluate(mod, specs, stats, collect_samples=3):
             try:
                 vs = c.oracle(r) or []
             except Exception:
-                raise RuntimeError("oracle crashed on spec %s\n%s" % (c.spec, traceback.format_exc()))
+                # the oracle evaluates the property's clauses on the implementation's outputs; it runs cleanly on the
+                # unchanged tree, so a crash means the outputs are no longer of the expected kind (NaN, wrong shape …)
+                vs = []
+                mismatches.append({"spec": c.spec, "mode": "-", "line": c.line, "impl": jsonable(r), "model": None,
+                                   "message": "property oracle could not evaluate the implementation's output: "
+                                              + traceback.format_exc()[-600:], "klass": c.klass})
             for key, message in vs:
                 violations.append({"spec": c.spec, "key": key, "message": message, "impl": jsonable(r),
                                    "line": c.line, "klass": c.klass})
